@@ -213,8 +213,8 @@ def run(ctx):
                     o_id = fn_origins(lav, rv[5][names.index('party_id')], True)
                     o_st = fn_origins(lav, rv[5][names.index('stake')], True)
                     gets = [c for c in body.calls() if c.best().rsplit('::', 1)[-1] == 'get' and has(fn_origins(lav, c.args[0], True), 'p#3')]
-                    key_ok = bool(gets) and all(has(fn_origins(lav, c.args[1], True), 'call:' + REG) and
-                                                not has(fn_origins(lav, c.args[1], True), 'pty:Signer.party_id*') for c in gets)
+                    key_ok = bool(gets) and all(has(fn_origins(lav, c.args[1], 'adapters'), 'call:' + REG) and
+                                                not has(fn_origins(lav, c.args[1], 'adapters'), 'pty:Signer.party_id*') for c in gets)
                     ok = has(o_id, 'call:' + REG) and has(o_st, 'p#3') and key_ok
                     inst = 'MithrilSignerRegistrationVerifier::verify: party id <- registered id; stake <- stake_distribution[registered id]'
                     if ok:
